@@ -238,7 +238,7 @@ def run_check(tier, seed):
                 if spec_unsafe(nme.encode('utf-8', 'surrogateescape')): findings.append({'what': 'an entry with an unsafe name was created: %r' % nme, 'sig': {'layer': 'pt', 'method': 'create'}})
 
         # ---------------- (B) sentinel histories, standalone and behind a Vfs
-        n_hist = 30 if quick else 400
+        n_hist = 20 if quick else 400
         hist = []
         for k in range(n_hist):
             top = os.path.join(base, 'h%d' % k); os.makedirs(top)
